@@ -11,6 +11,7 @@ Everything happens in a scratch worktree of /repo under $TMPDIR (default /tmp/sv
 Prints a JSON summary on stdout. The scratch worktree is removed afterwards.
 """
 import json, os, re, shutil, subprocess, sys, tempfile
+XJSBIN = os.environ.get("XJSCHECK_BIN") or os.path.join(os.path.dirname(os.path.dirname(os.path.abspath(__file__))), "bin", "xjscheck")
 
 VERIF = os.path.dirname(os.path.dirname(os.path.abspath(__file__)))
 ENV = dict(os.environ, GOFLAGS="-mod=mod", GOPROXY="off", GOSUMDB="off", GOTOOLCHAIN="local")
@@ -77,7 +78,7 @@ def main():
         shutil.copy(os.path.join(VERIF, "known_findings.json"), vout)
         fired = {}
         for p in props:
-            rc, out = sh(f"{VERIF}/bin/xjscheck -property {p} -tier quick -repo {wt} -verif {vout}", timeout=600)
+            rc, out = sh(f"{XJSBIN} -property {p} -tier quick -repo {wt} -verif {vout}", timeout=600)
             lines = [l.strip() for l in out.splitlines() if re.match(r"\s+(VIOLATED|UNRESOLVED) ", l)]
             if rc != 0:
                 fired[p] = lines or [out[-800:]]
